@@ -20,7 +20,8 @@ RULE = ("every script-management operation (havespace, listscripts, getscript, p
         "LF, CRLF, NUL, braces, {5} {5+} {3+}CRLFabc look-alikes, multi-byte text, empty, "
         "1000 bytes, injected second commands) composed 1-3 at a time, plus values of 511..2048 "
         "octets around the 1024-octet quoted/literal switch holding 0..1024 characters that "
-        "need escaping or are multi-byte, x sizes 0..2^63. "
+        "need escaping or are multi-byte, and values equal to an earlier value of the same process "
+        "or to one of its wire forms ({n+}CRLFvalue, {n}CRLFvalue, quoted-and-escaped), x sizes 0..2^63. "
         "Non-trivial = call with at least one argument; distinct = distinct (op, args).")
 ASSUMPTIONS = [
     "strict parser in rv/msmodel.py (quoted strings with only \\\\ and \\\" escapes and no "
@@ -72,9 +73,42 @@ def boundary_value(rng):
     return "x" * (pad // 2) + out + "x" * (pad - pad // 2)
 
 
+RECENT = []
+
+
+def echo_value(rng):
+    """a value that equals an earlier value of this process, or one of the WIRE FORMS of an
+    earlier value (what a cache keyed on the argument, or a reader of the client's own
+    output, could confuse it with)"""
+    v = rng.choice(RECENT)
+    n = len(v.encode("utf-8", "surrogatepass"))
+    form = rng.randrange(5)
+    if form == 0:
+        return v
+    if form == 1:
+        return "{%d+}\r\n%s" % (n, v)
+    if form == 2:
+        return "{%d}\r\n%s" % (n, v)
+    if form == 3:
+        return '"' + v.replace("\\", "\\\\").replace('"', '\\"') + '"'
+    return v + "\r\n"
+
+
 def value(rng):
-    if rng.random() < 0.04:
+    v = _value(rng)
+    if len(v) < 200:
+        RECENT.append(v)
+        if len(RECENT) > 24:
+            del RECENT[0]
+    return v
+
+
+def _value(rng):
+    r = rng.random()
+    if r < 0.04:
         return boundary_value(rng)
+    if r < 0.12 and RECENT:
+        return echo_value(rng)
     k = rng.choice([1, 1, 1, 2, 2, 3])
     v = "".join(rng.choice(FRAGS) for _ in range(k))
     if rng.random() < 0.02:
